@@ -1,6 +1,6 @@
 (* Model/C14Check.v -- case type and checker used by the generated correspondence files for C14 *)
 From Coq Require Import List ZArith Ascii String Bool Arith.
-From PG Require Import Model.Terms.
+From PG Require Import Model.Terms Model.C14Pen.
 Import ListNotations.
 Open Scope string_scope.
 Open Scope list_scope.
@@ -85,7 +85,9 @@ Inductive c14case :=
 | CInfo (t : term) (i : value) (rebuilt : value) (guard : bool)
     (* i = t.info; rebuilt = Term.build_from_info(t.info).info (VNone if it raised); guard = harness's classification
        "no custom knots, no tensor by, hidden attributes at their defaults" *)
-| CAccept (o : obj) (deep force : bool) (k : string) (accepted : bool) (public_keys : list string).
+| CAccept (o : obj) (deep force : bool) (k : string) (accepted : bool) (public_keys : list string)
+| CPenalty (ts : list term) (tol : QArith_base.Q) (impl : list (list (Z * Z))).
+    (* TermList.build_penalties() of a term list in the state ts (after uses and assignments), exact dyadics *)
 
 Definition check_case (c : c14case) : bool :=
   match c with
@@ -100,4 +102,5 @@ Definition check_case (c : c14case) : bool :=
   | CAccept o deep force k accepted public_keys =>
       Bool.eqb (accepts (map fst (get_params deep o)) force o k) accepted &&
       vlist_eqb (map VStr (map fst (get_params false o))) (map VStr public_keys)
+  | CPenalty ts tol impl => check_penalty ts tol impl
   end.
